@@ -467,3 +467,6 @@ HARNESSES.append(
             functions=["connections/redis/message_broker.py:RedisMessageBroker.maintenance"], covers=["died-holding-the-message", "redelivered", "still-in-flight"],
             stubs=["fake Redis server"]))
 ASSUMPTIONS = ["RabbitMQ exclusivity is the server's (not modelled)"]
+
+from engine.harness import borrowed  # noqa: E402
+HARNESSES.append(borrowed("c01", "H01-redis-finish", "H14-redis-finish"))   # a message handed back twice is listed twice and delivered to two holders
